@@ -226,7 +226,7 @@ let do_op f line =
       let t = List.fold_left (fun acc a -> App (acc, enc_value a)) (gen_lookup name) argv in
       let tag what = Printf.sprintf "oracle:%s:%s:%s" prop name what in
       (* correspondence: the model of the reducer on the generated constant and the Spec encodings *)
-      if res <> "PANIC" && res <> "LIMIT" && c <= 30000 then begin
+      if res <> "PANIC" && res <> "LIMIT" && c <= 8000 then begin
         match reduce_m big_fuel o (nat_of_int 300000) t with
         | None -> bump counts "model-out-of-fuel"
         | Some (mt, mc) ->
